@@ -5,10 +5,12 @@
     `to_xmlstr(adj_covband())` / `toInteger`                                                (`fmtInt` / `rdInt`)
     `str_val = GNU_gama::gon2deg(m, 0, 4)` (observation.cpp, `angles="360"`)                 (`Angles.gon2deg · 0 4`, C18's model)
     `deg2gon(sm, dm)` tried before `toDouble` (GKFparser `process_*` of the angular kinds)  (`Angles.deg2gon`, C18's model)
-  over ℚ.  `export_xml` uses prec = 8, 16 and 17 (default) by site, and `updated_xml_covmat` prints the `<cov-mat>` elements
-  with `scientific`, `precision(16)` (`%.16e`, `Dec.fmtSci 16`: same laws, `rd_fmtSci` / `fmtSci_roundSig`, NOT instantiated
-  here); the network model has ONE `fmt` for all sites, so the precision `p` is a parameter and the statements are about a
-  `%.{p}g` printer at every site.  Over ℚ the conversions `latitude()*200/M_PI`, `*0.324`, `*(1/0.324)` are exactly invertible
+  over ℚ.  `export_xml` uses prec = 8, 16 and 17 (default) by site (the regenerated table `Gen/GkfFmtSites.lean`); the
+  network model has ONE `fmt` for the `to_xmlstr` sites, so the precision `p` is a parameter and the statements are about a
+  `%.{p}g` printer at every such site.  Round 8: the `<cov-mat>` elements are NOT printed by `to_xmlstr` but by
+  `updated_xml_covmat` with `scientific`, `precision(16)` (`%.16e`): `fmtCov := Dec.fmtSci m 16`, read back as
+  `roundSig m 17` (`rd_fmtSci`, projection `fmtSci_roundSig`) — the third printer of `Codec.PrinterOn`, with its own
+  quantisation `qc`.  Over ℚ the conversions `latitude()*200/M_PI`, `*0.324`, `*(1/0.324)` are exactly invertible
   (they are not for IEEE doubles: see the report).
 
   Round 6: the sexagesimal second printer is C18's formatter / reader itself (no stand-in any more).  It prints no sign
@@ -35,7 +37,8 @@ def fmtDegReal (g : ℚ) : String := (Angles.gon2deg g 0 4).getD ""
 /-- `deg2gon(sm, dm)` (C18's model) -/
 def rdDegReal (s : String) : Option ℚ := Angles.deg2gon s
 
-/-- the codec of `export_xml` with `to_xmlstr(·, p)` and the sexagesimal text `gon2deg(·, 0, 4)` / `deg2gon`;
+/-- the codec of `export_xml` with `to_xmlstr(·, p)`, the `%.16e` of `updated_xml_covmat` for the `<cov-mat>` elements
+    (`fmtCov`; the regenerated site table says `.sci 16`) and the sexagesimal text `gon2deg(·, 0, 4)` / `deg2gon`;
     `sd` = `apriori_m_0() * sqrt(dist)` (not rational: a parameter) -/
 def realCodec (m : RMode) (p : Nat) (sd : ℚ → ℚ → ℚ) : Codec ℚ :=
   { fmt := fmtGen m p, rd := rdDecimal, zero := 0, isZero := fun x => decide (x = 0),
@@ -43,7 +46,8 @@ def realCodec (m : RMode) (p : Nat) (sd : ℚ → ℚ → ℚ) : Codec ℚ :=
     latOut := fun x => x * 200 / piQ, latIn := fun x => x * piQ / 200,
     fmtDeg := fmtDegReal, rdDeg := rdDegReal,
     toSec := fun x => x * (81 / 250), fromSec := fun x => x * (250 / 81),
-    pos := fun x => decide (0 < x), lt1 := fun x => decide (x < 1), ellKnown := fun e => e == "wgs84", sdDist := sd }
+    pos := fun x => decide (0 < x), lt1 := fun x => decide (x < 1), ellKnown := fun e => e == "wgs84", sdDist := sd,
+    fmtCov := fmtSci m 16 }
 
 theorem rd_fmtGenL (m : RMode) (p : Nat) (x : ℚ) : rdDecimalL (fmtGenL m p x) = some (roundSig m (sigDigits p) x) := by
   have := rd_fmtGen m p x
@@ -240,9 +244,9 @@ theorem rdInt_fmtInt (i : Int) : rdInt (fmtInt i) = some i := by
 theorem piQ_ne : piQ ≠ 0 := by unfold piQ; norm_num
 
 /-- **the real printers satisfy the law of the printer theorems of C13**, for every precision and rounding rule; the
-    sexagesimal printer on its domain -/
+    `<cov-mat>` elements with `%.16e` (17 significant digits, whatever `p`); the sexagesimal printer on its domain -/
 theorem realCodec_printerOn (m : RMode) (p : Nat) (sd : ℚ → ℚ → ℚ) :
-    (realCodec m p sd).PrinterOn DegDom (roundSig m (sigDigits p)) degQ :=
+    (realCodec m p sd).PrinterOn DegDom (roundSig m (sigDigits p)) (roundSig m 17) degQ :=
   { rd_fmt := fun x => rd_fmtGen m p x
     fmt_q := fun x => fmtGen_roundSig m p x
     isZero_iff := fun x => by simp [realCodec]
@@ -265,6 +269,9 @@ theorem realCodec_printerOn (m : RMode) (p : Nat) (sd : ℚ → ℚ → ℚ) :
       field_simp [piQ_ne]
     rdDeg_fmt := fun x => rdDegReal_fmtGen m p x
     fmt_ne := fun x => fmtGen_ne_empty m p x
+    rd_fmtCov := fun x => rd_fmtSci m 16 x
+    fmtCov_qc := fun x => fmtSci_roundSig m 16 x
+    qc_neg := fun x => roundSig_neg m _ x
     rdDeg_fmtDeg := fun x hx => rdDegReal_fmtDegReal x hx
     fmtDeg_qd := fun x hx => fmtDegReal_degQ x hx
     fromSec_toSec := fun x => by
